@@ -38,10 +38,14 @@ PhantomAllText(g) ==
   CASE g = "TU" -> "PhantomData<(T,U)>" [] g = "rich" -> "PhantomData<&'a[T;N]>" [] OTHER -> "PhantomData<(&'au8,&'bT,[U;N])>"
 TyText(ty) ==
   CASE ty = "T" -> "T" [] ty = "U" -> "U" [] ty = "WrapT" -> "Wrap<T>" [] ty = "PhantomT" -> "PhantomData<T>"
-    [] ty = "RefT" -> "&'bT" [] ty = "PairTU" -> "(T,U)" [] ty = "conc" -> "u8" [] ty = "PhantomAll" -> "PhantomAll" [] ty = "A" -> "TA"
+    [] ty = "RefT" -> "&'bT" [] ty = "ArrT" -> "[T;2]" [] ty = "Arr0T" -> "[T;0]" [] ty = "PairTU" -> "(T,U)" [] ty = "conc" -> "u8" [] ty = "PhantomAll" -> "PhantomAll" [] ty = "A" -> "TA"
     [] OTHER -> ty
-ImplTy(ty, a) ==
+\* (tr: the trait asked of the field type.  Arrays implement a trait when their element does -- except that the empty
+\*  array is Default whatever its element is)
+ImplTy(ty, tr, a) ==
   CASE ty = "T" -> a.T [] ty = "U" -> a.U [] ty = "WrapT" -> a.T [] ty = "PairTU" -> a.T /\ a.U
+    [] ty = "ArrT" -> a.T
+    [] ty = "Arr0T" -> (tr = "Default" \/ a.T)
     [] OTHER -> TRUE          \* PhantomData<..>, concrete types
 
 TraitPath(t) ==
@@ -102,7 +106,7 @@ Educes(c, t) ==
     [] OTHER -> HasTrait(c, t)
 Applies(c, t, a) ==
   IF ~Educes(c, t) THEN TRUE          \* provided by a hand-written, unconditional impl in the corpus
-  ELSE /\ \A p \in Delegated(c, t) : ImplTy(F(c, p).ty, a)
+  ELSE /\ \A p \in Delegated(c, t) : ImplTy(F(c, p).ty, BoundTrait(c, Primary(c, t)), a)
        /\ \A s \in Supers(c, t) : Applies(c, s, a)
 
 \* ---------------------------------------------------------------- C12: where-sets and headers
